@@ -204,3 +204,11 @@ def opt_key(d, key, present, value):
 
 def mk(_view, **fields):
     return dict(fields)
+
+
+def seq_mapi(xs, f):
+    return [f(x, j) for j, x in enumerate(xs)]
+
+
+def stoi(s):
+    return int(s)
